@@ -1,7 +1,8 @@
 import PestModel.Model.Unicode
+import PestModel.Model.Validator
 import PestModel.Model.Proto
 /-! Driver mode `unicode`: `U <group> <CONST>` → the table as ranges over scalar values;
-`N <NAME>` → what `by_name(NAME)` resolves to (`group CONST` or `none`). -/
+`N <NAME>` → what `by_name(NAME)` resolves to (`group CONST` or `none`); `K <NAME>` → whether the validator lets a grammar use the name. -/
 namespace PestModel.UnicodeDriver
 open PestModel.Unicode PestModel.Gen.Unicode PestModel.Proto
 
@@ -19,6 +20,8 @@ def runLine (line : String) : String :=
   | ["N", n] => match byName n with | some (g, c) => s!"{g} {c}" | none => "none"
   -- the generator's built-in rule for an advertised property reads the table of the same name
   | ["B", n] => if advertised.contains n ∧ genUnicodeLoop then "{state.match_char_by(::pest::unicode::" ++ n ++ ")}" else "not-emitted"
+  -- the validator's verdict on `x = { NAME }`: a name is usable when it is in `BUILTINS`
+  | ["K", n] => if PestModel.V.isBuiltin n then "accepted" else "rejected"
   | ["A"] => " ".intercalate advertised
   | _ => "bad-op"
 
